@@ -28,7 +28,12 @@ type scope struct {
 	tuple  map[string]tupleDef // locals bound once by a multi-value assignment
 	params map[string]string   // receiver / parameter / named result -> positional placeholder
 	ptype  map[string]string   // parameter name -> type (textual)
+	inl    int                 // helper-inlining depth used so far
 }
+
+// pkgFuncs: functions and methods of the package under analysis, by name (set by main before use);
+// values returned by a helper are resolved through the helper's body.
+var pkgFuncs map[string]*ast.FuncDecl
 
 func newScope(fd *ast.FuncDecl) *scope {
 	sc := &scope{fd: fd, defs: map[string]ast.Expr{}, tuple: map[string]tupleDef{}, params: map[string]string{}, ptype: map[string]string{}}
@@ -336,6 +341,9 @@ func (sc *scope) canonD(e ast.Expr, depth int) string {
 	case *ast.StarExpr:
 		return "*" + sc.canonD(x.X, depth)
 	case *ast.CallExpr:
+		if v, ok := sc.inlineHelper(x, depth); ok {
+			return v
+		}
 		fun := sc.canonD(x.Fun, depth)
 		var args []string
 		for _, a := range x.Args {
@@ -521,7 +529,7 @@ func callsNamed(fd *ast.FuncDecl, pkg map[string]*ast.FuncDecl, name string) []s
 			return true
 		})
 	}
-	walk(fd, 1)
+	walk(fd, 3)
 	return out
 }
 
@@ -620,4 +628,188 @@ func minusOne(s string) (string, bool) {
 		return s[1 : len(s)-3], true
 	}
 	return "", false
+}
+
+// inlineHelper: the call is to a function of the package that computes its single result with one return
+// statement: its canonical value is that of the returned expression with the arguments substituted.
+func (sc *scope) inlineHelper(c *ast.CallExpr, depth int) (string, bool) {
+	if pkgFuncs == nil || depth <= 0 || sc.inl >= 3 {
+		return "", false
+	}
+	var name string
+	var recv ast.Expr
+	switch f := c.Fun.(type) {
+	case *ast.Ident:
+		name = f.Name
+	case *ast.SelectorExpr:
+		name, recv = f.Sel.Name, f.X
+	default:
+		return "", false
+	}
+	h, ok := pkgFuncs[name]
+	if !ok || h.Body == nil || h == sc.fd || name == "AnteHandle" {
+		return "", false
+	}
+	if (h.Recv == nil) != (recv == nil) {
+		if h.Recv != nil { // a method called without receiver cannot be this one
+			return "", false
+		}
+		if _, isPkg := recv.(*ast.Ident); !isPkg { // pkg.Func(...) of another package with the same name
+			return "", false
+		}
+		return "", false
+	}
+	if h.Type.Results == nil || h.Type.Results.NumFields() != 1 {
+		return "", false
+	}
+	var ret *ast.ReturnStmt
+	n := 0
+	ast.Inspect(h.Body, func(x ast.Node) bool {
+		if r, ok := x.(*ast.ReturnStmt); ok {
+			n++
+			ret = r
+		}
+		_, lit := x.(*ast.FuncLit)
+		return !lit
+	})
+	if n != 1 || len(ret.Results) != 1 {
+		return "", false
+	}
+	hs := newScope(h)
+	hs.inl = sc.inl + 1
+	i := 0
+	if h.Type.Params != nil {
+		for _, f := range h.Type.Params.List {
+			for _, pn := range f.Names {
+				if i < len(c.Args) {
+					hs.params[pn.Name] = sc.canonD(c.Args[i], depth-1)
+				}
+				i++
+			}
+		}
+	}
+	if h.Recv != nil && recv != nil {
+		for _, f := range h.Recv.List {
+			for _, rn := range f.Names {
+				hs.params[rn.Name] = sc.canonD(recv, depth-1)
+			}
+		}
+	}
+	return hs.canonD(ret.Results[0], depth-1), true
+}
+
+// reach: fd and the functions of the package it calls, transitively up to `depth` levels.
+func reach(fd *ast.FuncDecl, pkg map[string]*ast.FuncDecl, depth int) []*ast.FuncDecl {
+	var out []*ast.FuncDecl
+	seen := map[*ast.FuncDecl]bool{}
+	var walk func(f *ast.FuncDecl, d int)
+	walk = func(f *ast.FuncDecl, d int) {
+		if f == nil || f.Body == nil || seen[f] {
+			return
+		}
+		seen[f] = true
+		out = append(out, f)
+		if d == 0 {
+			return
+		}
+		ast.Inspect(f.Body, func(n ast.Node) bool {
+			if c, ok := n.(*ast.CallExpr); ok {
+				nm := calleeName(c)
+				if h, ok := pkg[nm]; ok && nm != "AnteHandle" {
+					walk(h, d-1)
+				}
+			}
+			return true
+		})
+	}
+	walk(fd, depth)
+	return out
+}
+
+// sliceElems: the elements of a slice-valued expression built from a composite literal and appends,
+// following the (straight-line, top-level) assignments to a local of fd.
+func sliceElems(fd *ast.FuncDecl, e ast.Expr, ellipsis bool) []ast.Expr {
+	switch x := e.(type) {
+	case *ast.ParenExpr:
+		return sliceElems(fd, x.X, ellipsis)
+	case *ast.CompositeLit:
+		return x.Elts
+	case *ast.CallExpr:
+		if calleeName(x) == "append" && len(x.Args) >= 1 {
+			out := sliceElems(fd, x.Args[0], true)
+			rest := x.Args[1:]
+			if x.Ellipsis.IsValid() && len(rest) == 1 {
+				return append(out, sliceElems(fd, rest[0], true)...)
+			}
+			return append(out, rest...)
+		}
+	case *ast.Ident:
+		var cur []ast.Expr
+		found := false
+		for _, st := range fd.Body.List {
+			switch s := st.(type) {
+			case *ast.AssignStmt:
+				for i, l := range s.Lhs {
+					if id, ok := l.(*ast.Ident); ok && id.Name == x.Name && i < len(s.Rhs) {
+						if c, ok := s.Rhs[i].(*ast.CallExpr); ok && calleeName(c) == "append" && len(c.Args) >= 1 {
+							if a0, ok := c.Args[0].(*ast.Ident); ok && a0.Name == x.Name {
+								rest := c.Args[1:]
+								if c.Ellipsis.IsValid() && len(rest) == 1 {
+									cur = append(cur, sliceElems(fd, rest[0], true)...)
+								} else {
+									cur = append(cur, rest...)
+								}
+								found = true
+								continue
+							}
+						}
+						cur = sliceElems(fd, s.Rhs[i], true)
+						found = true
+					}
+				}
+			case *ast.DeclStmt:
+				if gd, ok := s.Decl.(*ast.GenDecl); ok {
+					for _, sp := range gd.Specs {
+						if vs, ok := sp.(*ast.ValueSpec); ok {
+							for i, n := range vs.Names {
+								if n.Name == x.Name && i < len(vs.Values) {
+									cur = sliceElems(fd, vs.Values[i], true)
+									found = true
+								}
+							}
+						}
+					}
+				}
+			}
+		}
+		if found {
+			return cur
+		}
+	}
+	if ellipsis {
+		return nil
+	}
+	return []ast.Expr{e}
+}
+
+// chainDecorators: the decorators handed to sdk.ChainAnteDecorators in fd, in order — given directly, as a
+// slice spread with `...`, or built with append.
+func chainDecorators(fd *ast.FuncDecl) []ast.Expr {
+	var out []ast.Expr
+	if fd == nil || fd.Body == nil {
+		return nil
+	}
+	ast.Inspect(fd.Body, func(n ast.Node) bool {
+		call, ok := n.(*ast.CallExpr)
+		if !ok || calleeName(call) != "ChainAnteDecorators" {
+			return true
+		}
+		if call.Ellipsis.IsValid() && len(call.Args) == 1 {
+			out = sliceElems(fd, call.Args[0], true)
+		} else {
+			out = call.Args
+		}
+		return false
+	})
+	return out
 }
